@@ -360,9 +360,319 @@ def gen_labelled(tier, rng):
 
 
 # ------------------------------------------------------------------------------------------------
+# layer 2: metamorphic laws on the public functions
+# ------------------------------------------------------------------------------------------------
+FUNCS = ["overlap", "overlap_asymm", "kinetic", "moment", "momentum", "angmom", "point_charge", "nuclear", "eri",
+         "eval", "eval_deriv"]
+
+
+def fr(x):
+    return float(Fraction(x))
+
+
+def call_public(fn, basis, prm, transform=None, basis2=None, transform2=None):
+    """-> (array, tuple of basis axes)"""
+    pts = np.array([[fr(v) for v in p] for p in prm["points"]])
+    if fn == "overlap":
+        from gbasis.integrals.overlap import overlap_integral
+        return overlap_integral(basis, transform=transform), (0, 1)
+    if fn == "overlap_asymm":
+        from gbasis.integrals.overlap_asymm import overlap_integral_asymmetric
+        return overlap_integral_asymmetric(basis, basis2, transform_one=transform, transform_two=transform2), (0, 1)
+    if fn == "kinetic":
+        from gbasis.integrals.kinetic_energy import kinetic_energy_integral
+        return kinetic_energy_integral(basis, transform=transform), (0, 1)
+    if fn == "moment":
+        from gbasis.integrals.moment import moment_integral
+        return moment_integral(basis, pts[0], np.array(prm["orders"]), transform=transform), (0, 1)
+    if fn == "momentum":
+        from gbasis.integrals.momentum import momentum_integral
+        return momentum_integral(basis, transform=transform), (0, 1)
+    if fn == "angmom":
+        from gbasis.integrals.angular_momentum import angular_momentum_integral
+        return angular_momentum_integral(basis, transform=transform), (0, 1)
+    if fn == "point_charge":
+        from gbasis.integrals.point_charge import point_charge_integral
+        return point_charge_integral(basis, pts, np.array([fr(c) for c in prm["charges"]]),
+                                     transform=transform), (0, 1)
+    if fn == "nuclear":
+        from gbasis.integrals.nuclear_electron_attraction import nuclear_electron_attraction_integral
+        return nuclear_electron_attraction_integral(basis, pts, np.array([fr(c) for c in prm["charges"]]),
+                                                    transform=transform), (0, 1)
+    if fn == "eri":
+        from gbasis.integrals.electron_repulsion import electron_repulsion_integral
+        return electron_repulsion_integral(basis, transform=transform, notation=prm["notation"]), (0, 1, 2, 3)
+    if fn == "eval":
+        from gbasis.evals.eval import evaluate_basis
+        return evaluate_basis(basis, pts, transform=transform), (0,)
+    if fn == "eval_deriv":
+        from gbasis.evals.eval_deriv import evaluate_deriv_basis
+        return evaluate_deriv_basis(basis, pts, np.array(prm["deriv"]), transform=transform), (0,)
+    raise ValueError(fn)
+
+
+def apply_axis(U, arr, ax):
+    """U (rows x cols) contracted with axis `ax` of arr; new axis stays at position ax"""
+    return np.moveaxis(np.tensordot(U, arr, (1, ax)), 0, ax)
+
+
+def apply_all(Us, arr, axes):
+    for U, ax in zip(Us, axes):
+        if U is not None:
+            arr = apply_axis(U, arr, ax)
+    return arr
+
+
+def block_diag(mats):
+    r = sum(m.shape[0] for m in mats)
+    c = sum(m.shape[1] for m in mats)
+    out = np.zeros((r, c))
+    i = j = 0
+    for m in mats:
+        out[i:i + m.shape[0], j:j + m.shape[1]] = m
+        i += m.shape[0]
+        j += m.shape[1]
+    return out
+
+
+def default_sph_labels(l):
+    if l == 1:
+        return ["c1", "s1", "c0"]
+    return ["s%d" % m for m in range(l, 0, -1)] + ["c%d" % m for m in range(l + 1)]
+
+
+def make_shell(sj, conv=None, force_cart=False):
+    """gbasis shell from the exact description; conv = dict(perm=[..], labels=[..]) builds a
+    GeneralizedContractionShell subclass reporting another component order / sign convention
+    (as gbasis/wrappers.py does for other programs)."""
+    from gbasis.contractions import GeneralizedContractionShell as G
+
+    xs = XShell.from_json(sj)
+    args = (xs.l, np.array([float(c) for c in xs.coord]), np.array([[float(c) for c in row] for row in xs.coeffs]),
+            np.array([float(e) for e in xs.exps]), "spherical" if (xs.sph and not force_cart) else "cartesian")
+    if conv is None:
+        return G(*args)
+    perm = list(conv["perm"])
+    labels = tuple(conv["labels"])
+
+    class ConventionShell(G):
+        @property
+        def angmom_components_cart(self):
+            return G.angmom_components_cart.fget(self)[perm]
+
+        @property
+        def angmom_components_sph(self):
+            return labels
+
+    return ConventionShell(*args)
+
+
+def shell_U(sh, sj):
+    """T_s of the property: identity for a Cartesian shell, I_M (x) C2S for a spherical one."""
+    from gbasis.spherical import generate_transformation
+
+    M = len(sj["coeffs"][0])
+    if not sj["sph"]:
+        return np.eye(M * ncart(sj["l"]))
+    t = generate_transformation(sh.angmom, sh.angmom_components_cart, sh.angmom_components_sph, "left")
+    return np.kron(np.eye(M), t)
+
+
+def conv_P(sj, conv):
+    """output(custom)[k'] = sum_k P[k', k] output(default)[k] for one shell"""
+    M = len(sj["coeffs"][0])
+    if sj["sph"]:
+        dl = default_sph_labels(sj["l"])
+        p = np.zeros((len(dl), len(dl)))
+        for r, lab in enumerate(conv["labels"]):
+            sign = -1.0 if lab.startswith("-") else 1.0
+            p[r, dl.index(lab.lstrip("-"))] = sign
+    else:
+        n = ncart(sj["l"])
+        p = np.zeros((n, n))
+        for r, k in enumerate(conv["perm"]):
+            p[r, k] = 1.0
+    return np.kron(np.eye(M), p)
+
+
+def close(a, b, scale_extra=0.0):
+    a = np.asarray(a)
+    b = np.asarray(b)
+    if a.shape != b.shape:
+        return {"kind": "shape", "impl_shape": list(a.shape), "model_shape": list(b.shape)}
+    if a.size == 0:
+        return None
+    if not (np.all(np.isfinite(a)) and np.all(np.isfinite(b))):
+        return {"kind": "nonfinite"}
+    scale = max(float(np.abs(b).max()), scale_extra)
+    diff = np.abs(a - b)
+    tol = NUM_TOL * scale + 1e-13
+    if float(diff.max()) > tol:
+        idx = np.unravel_index(int(diff.argmax()), diff.shape)
+        return {"kind": "value", "index": [int(i) for i in idx], "impl": repr(a[idx]), "model": repr(b[idx]),
+                "abs_diff": float(diff.max()), "tol": tol}
+    return None
+
+
+def eval_numeric(model, case):
+    fn = case["fn"]
+    prm = case["prm"]
+    bj = case["basis"]
+    bj2 = case.get("basis2")
+    convs = case.get("conv")
+    convs2 = case.get("conv2")
+    Tm = np.array([[fr(v) for v in row] for row in case["T"]]) if case.get("T") is not None else None
+    Tm2 = np.array([[fr(v) for v in row] for row in case["T2"]]) if case.get("T2") is not None else None
+    details = []
+
+    def note(law, d):
+        if d is not None:
+            d["law"] = law
+            details.append(d)
+
+    def run(basis, basis2=None, t=None, t2=None):
+        st, out = call_impl(call_public, fn, basis, prm, t, basis2, t2)
+        if st != "ok":
+            return None, out
+        return out, None
+
+    mixed = [make_shell(sj) for sj in bj]
+    mixed2 = [make_shell(sj) for sj in bj2] if bj2 else None
+    res_mixed, err = run(mixed, mixed2)
+    if err:
+        return {"detail": {"kind": "rejected", "impl": err, "law": "mixed call"}, "tag": "num " + fn}
+    arr_mixed, axes = res_mixed
+    if case["kind"] == "num":
+        # law 1: mixed == (+)T_s applied to all-Cartesian on every basis index
+        cart = [make_shell(sj, force_cart=True) for sj in bj]
+        cart2 = [make_shell(sj, force_cart=True) for sj in bj2] if bj2 else None
+        res_cart, err = run(cart, cart2)
+        if err:
+            note("cartesian call", {"kind": "rejected", "impl": err})
+        else:
+            arr_cart = res_cart[0]
+            U1 = block_diag([shell_U(sh, sj) for sh, sj in zip(mixed, bj)])
+            U2 = block_diag([shell_U(sh, sj) for sh, sj in zip(mixed2, bj2)]) if bj2 else U1
+            Us = [U1, U2, U1, U2][:len(axes)] if not bj2 else [U1, U2]
+            note("mixed = (+)T_s applied to cartesian", close(arr_mixed, apply_all(Us, arr_cart, axes),
+                                                              float(np.abs(arr_cart).max())))
+        # law 2: transform=T == T applied to every basis index of the untransformed result
+        if Tm is not None or Tm2 is not None:
+            res_t, err = run(mixed, mixed2, Tm, Tm2)
+            if err:
+                note("transform call", {"kind": "rejected", "impl": err})
+            else:
+                Ts = [Tm, Tm2] if bj2 else [Tm] * len(axes)
+                ref = apply_all(Ts, arr_mixed, axes)
+                note("transform = T applied to every index", close(res_t[0], ref, float(np.abs(arr_mixed).max())))
+    else:  # "conv": custom component order / sign conventions
+        cust = [make_shell(sj, cv) for sj, cv in zip(bj, convs)]
+        cust2 = [make_shell(sj, cv) for sj, cv in zip(bj2, convs2)] if bj2 else None
+        res_c, err = run(cust, cust2)
+        if err:
+            note("custom-convention call", {"kind": "rejected", "impl": err})
+        else:
+            P1 = block_diag([conv_P(sj, cv) for sj, cv in zip(bj, convs)])
+            P2 = block_diag([conv_P(sj, cv) for sj, cv in zip(bj2, convs2)]) if bj2 else P1
+            Ps = [P1, P2] if bj2 else [P1] * len(axes)
+            note("custom convention = permuted/signed default", close(res_c[0], apply_all(Ps, arr_mixed, axes)))
+            if Tm is not None:
+                res_t, err = run(cust, cust2, Tm, Tm2)
+                if err:
+                    note("custom-convention transform call", {"kind": "rejected", "impl": err})
+                else:
+                    Ts = [Tm, Tm2] if bj2 else [Tm] * len(axes)
+                    note("custom convention, transform", close(res_t[0], apply_all(Ts, res_c[0], axes),
+                                                               float(np.abs(res_c[0]).max())))
+    pat = "".join("s" if sj["sph"] else "c" for sj in bj)
+    nontriv = any((sj["sph"] and sj["l"] >= 2) or len(sj["coeffs"][0]) > 1 for sj in bj) or Tm is not None
+    return {"detail": details[0] if details else None, "nontrivial": bool(nontriv),
+            "tag": "%s %s n=%d %s" % (case["kind"], fn, len(bj), pat)}
+
+
+def gen_prm(rng, fn):
+    pts = [[str(Fraction(rng.randint(-24, 24), 8)) for _ in range(3)] for _ in range(2 if fn != "eval" else 3)]
+    return {"points": pts, "charges": [str(Fraction(rng.randint(1, 12), 4)) for _ in pts],
+            "orders": [[1, 0, 0], [0, 1, 1], [2, 0, 1]], "deriv": rng.choice([[1, 0, 0], [0, 1, 1], [2, 0, 0], [0, 0, 1]]),
+            "notation": rng.choice(["physicist", "chemist"])}
+
+
+def gen_T_rat(rng, ncol):
+    nrow = max(1, ncol + rng.choice([-2, -1, 1]))
+    return [[str(Fraction(rng.randint(-8, 8), 4)) for _ in range(ncol)] for _ in range(nrow)]
+
+
+def nfun_json(bj):
+    return sum(len(sj["coeffs"][0]) * ((2 * sj["l"] + 1) if sj["sph"] else ncart(sj["l"])) for sj in bj)
+
+
+def gen_basis(rng, n, lmax, mmax=2, kmax=2):
+    return [gen_shell(rng, lmax=lmax, kmax=kmax, mmax=mmax, sph=False, exp_lo=0.1, exp_hi=8.0).to_json()
+            for _ in range(n)]
+
+
+def with_types(bj, pattern):
+    return [dict(sj, sph=bool(t)) for sj, t in zip(bj, pattern)]
+
+
+def gen_conv(rng, sj):
+    l = sj["l"]
+    perm = list(range(ncart(l)))
+    rng.shuffle(perm)
+    labels = default_sph_labels(l)
+    rng.shuffle(labels)
+    labels = [("-" + x) if rng.random() < 0.4 else x for x in labels]
+    return {"perm": perm, "labels": labels}
+
+
+def gen_numeric(tier, rng):
+    cases = []
+    thorough = tier != "quick"
+    nb = 4 if thorough else 1
+    for fn in FUNCS:
+        lmax = 1 if fn == "eri" else 3
+        for n in (1, 2, 3):
+            for _ in range(nb):
+                bj = gen_basis(rng, n, lmax if n < 3 else min(lmax, 2), mmax=2)
+                if fn == "eri" and n == 3:
+                    bj = gen_basis(rng, n, 1, mmax=1)
+                for pattern in itertools.product([0, 1], repeat=n):
+                    b = with_types(bj, pattern)
+                    c = {"kind": "num", "fn": fn, "basis": b, "prm": gen_prm(rng, fn), "T": gen_T_rat(rng, nfun_json(b))}
+                    if fn == "overlap_asymm":
+                        n2 = rng.randint(1, 2)
+                        b2 = with_types(gen_basis(rng, n2, 3, mmax=2), [rng.randint(0, 1) for _ in range(n2)])
+                        c["basis2"] = b2
+                        which = rng.randint(0, 2)
+                        c["T"] = c["T"] if which != 1 else None
+                        c["T2"] = gen_T_rat(rng, nfun_json(b2)) if which != 2 else None
+                    cases.append(c)
+        # custom conventions
+        for i in range(8 if thorough else 3):
+            n = 1 + i % 3
+            bj = gen_basis(rng, n, 1 if fn == "eri" else 3, mmax=1 if (fn == "eri" and n == 3) else 2)
+            if i < 3:  # make sure high l is present in both coordinate types
+                bj[0]["l"] = 1 if fn == "eri" else 3 - (i % 2)
+            b = with_types(bj, [rng.randint(0, 1) for _ in range(n)])
+            if i == 0:
+                b[0]["sph"] = True
+            c = {"kind": "conv", "fn": fn, "basis": b, "prm": gen_prm(rng, fn), "conv": [gen_conv(rng, sj) for sj in b],
+                 "T": gen_T_rat(rng, nfun_json(b)) if i % 2 == 0 else None}
+            if fn == "overlap_asymm":
+                b2 = with_types(gen_basis(rng, 1, 3, mmax=2), [rng.randint(0, 1)])
+                c["basis2"] = b2
+                c["conv2"] = [gen_conv(rng, sj) for sj in b2]
+                c["T2"] = gen_T_rat(rng, nfun_json(b2)) if c["T"] is not None else None
+            cases.append(c)
+    return cases
+
+
+# ------------------------------------------------------------------------------------------------
 def eval_case(model, case):
     if case["kind"] == "lab":
         return eval_labelled(model, case)
+    if case["kind"] in ("num", "conv"):
+        return eval_numeric(model, case)
     raise ValueError(case["kind"])
 
 
@@ -399,7 +709,7 @@ def refit(case):
 
 def gen_cases(tier, seed):
     rng = random.Random(7000003 * seed + 9)
-    return gen_labelled(tier, rng)
+    return gen_labelled(tier, rng) + gen_numeric(tier, random.Random(7000003 * seed + 10))
 
 
 def run(rep, tier, seed, model, replay):
